@@ -6,8 +6,12 @@ use std::rc::Rc;
 
 #[derive(Debug)]
 pub enum Error {
+    NoSuchSignal(i32),
     MultipleHandlers,
+    System(std::io::Error),
 }
+
+impl std::error::Error for Error {}
 
 impl std::fmt::Display for Error {
     fn fmt(&self, f: &mut std::fmt::Formatter<'_>) -> std::fmt::Result {
@@ -31,4 +35,12 @@ where
         w.record(dsim::Ev::CtrlcRegistered { proc: p });
         Ok(())
     })
+}
+
+/// `try_set_handler` (ctrlc >= 3.3): the same, the handler simply is not installed a second time
+pub fn try_set_handler<F>(user_handler: F) -> Result<(), Error>
+where
+    F: FnMut() + 'static + Send,
+{
+    set_handler(user_handler)
 }
